@@ -14,8 +14,12 @@ def run(tier, seed):
     chk = vlib.Check("C18", "model_checking", tier, seed)
     # checked build: i32 overflow anywhere in the pipeline is a panic, recorded as a Panic event
     bindir = vlib.build_harness("checked")
-    vlib.drive(bindir, "ring", seed=seed, thorough=1 if tier == "thorough" else 0, out=chk.workdir, timeout=3600)
-    jobs = [(44, os.path.join(chk.workdir, "ring_generic.ndjson"))] + [(s, os.path.join(chk.workdir, "ring_%d.ndjson" % s)) for s in (44, 65, 87)]
+    jobs = []
+    # thorough: three independent draws of every random family (the deterministic families repeat, which is harmless)
+    for rnd, sd in enumerate([seed] if tier == "quick" else [seed, seed + 101, seed + 202]):
+        out = os.path.join(chk.workdir, "r%d" % rnd)
+        vlib.drive(bindir, "ring", seed=sd, thorough=1 if tier == "thorough" else 0, out=out, timeout=3600)
+        jobs += ([(44, os.path.join(out, "ring_generic.ndjson"))] if rnd == 0 or tier == "thorough" else []) + [(s, os.path.join(out, "ring_%d.ndjson" % s)) for s in (44, 65, 87)]
     mism, mags = common.validate_judged(chk, os.path.join(common.TRACE_DIR, "TraceRing.tla"), jobs, nproc=12, chunk=48)
     for m in mism:
         e = m["event"]
